@@ -13,24 +13,24 @@ ignores
 // relative to the working directory, under EVERY mix of the discovery flags (no precondition on them; none is read)
 fn filterer_patterns(args: &Args, workdir: PathS, mut ignores: Vec<Pat>) -> (r: Result<(Vec<Pat>, Vec<Pat>), Report>)
     ensures
-        r is Ok ==> r->Ok_0.0@ == explicit(args.filtering.filter_patterns@, workdir) + files_patterns(args.filtering.filter_files@, args.filtering.filter_files@.len() as int), // OBL:C12.filterer.explicit_filters_and_filter_files_reach_the_filterer_under_every_flag_mix
-        r is Ok ==> r->Ok_0.1@ == ignores@ + explicit(args.filtering.ignore_patterns@, workdir), // OBL:C12.filterer.explicit_ignore_patterns_reach_the_filterer_under_every_flag_mix
+        r is Ok ==> r->Ok_0.0@ == explicit(args.filtering.filter_patterns@, workdir) + files_patterns(args.filtering.filter_files@, args.filtering.filter_files@.len() as int), // OBL:C12+C11.filterer.explicit_filters_and_filter_files_reach_the_filterer_under_every_flag_mix
+        r is Ok ==> r->Ok_0.1@ == ignores@ + explicit(args.filtering.ignore_patterns@, workdir), // OBL:C12+C11.filterer.explicit_ignore_patterns_reach_the_filterer_under_every_flag_mix
 //@ prologue
 let ghost ig0 = ignores@;
 //@ epilogue
 Ok((filters, ignores))
 //@ closure 0
-|f: &StrS| -> (vx_r: Pat) ensures vx_r == (*f, Some(workdir)) /* OBL:C12.filterer.explicit_filters_and_filter_files_reach_the_filterer_under_every_flag_mix */
+|f: &StrS| -> (vx_r: Pat) ensures vx_r == (*f, Some(workdir)) /* OBL:C12+C11.filterer.explicit_filters_and_filter_files_reach_the_filterer_under_every_flag_mix */
 //@ closure_ghost 0
 Ghost(|f: StrS| (f, Some(workdir)))
 //@ closure 1
-|f: &StrS| -> (vx_r: Pat) ensures vx_r == (*f, Some(workdir)) /* OBL:C12.filterer.explicit_ignore_patterns_reach_the_filterer_under_every_flag_mix */
+|f: &StrS| -> (vx_r: Pat) ensures vx_r == (*f, Some(workdir)) /* OBL:C12+C11.filterer.explicit_ignore_patterns_reach_the_filterer_under_every_flag_mix */
 //@ closure_ghost 1
 Ghost(|f: StrS| (f, Some(workdir)))
 //@ loop over `&args.filtering.filter_files`
 invariant
     0 <= $IT.pos@ <= $IT.v@.len(), $IT.v@ == args.filtering.filter_files@, ignores@ == ig0,
-    filters@ == explicit(args.filtering.filter_patterns@, workdir) + files_patterns(args.filtering.filter_files@, $IT.pos@), // OBL:C12.filterer.explicit_filters_and_filter_files_reach_the_filterer_under_every_flag_mix
+    filters@ == explicit(args.filtering.filter_patterns@, workdir) + files_patterns(args.filtering.filter_files@, $IT.pos@), // OBL:C12+C11.filterer.explicit_filters_and_filter_files_reach_the_filterer_under_every_flag_mix
 ensures
     $IT.pos@ == $IT.v@.len(),
 decreases $IT.v@.len() - $IT.pos@
